@@ -3,6 +3,7 @@ package file
 import (
 	"context"
 	"errors"
+	"fmt"
 	"io"
 
 	"github.com/ipld/go-ipld-prime"
@@ -29,6 +30,11 @@ func NewUnixFSFile(ctx context.Context, substrate ipld.Node, lsys *ipld.LinkSyst
 	links, err := substrate.LookupByString("Links")
 	if err != nil {
 		return nil, err
+	}
+	if links.Kind() != ipld.Kind_List {
+		// not a dag-pb node: a block of another codec that happens to have a
+		// "Links" entry. Its ListIterator would be nil.
+		return nil, fmt.Errorf("unixfs file: Links is of kind %s, not a list", links.Kind())
 	}
 	if links.Length() == 0 {
 		// no children.
